@@ -7,6 +7,8 @@
    VERIF-BAD keys:
      eval:true-on-false<kinds> | eval:false-on-true<kinds> | eval:both<kinds>   value differs from Eval
      roundtrip:value-changed<kinds> | roundtrip:printed-text-rejected<kinds>
+     config:json-form-rejected<kinds> | config:json-value-changed<kinds>   the class loaded from its ClassMap
+            JSON form (true3) must have the same value
      parse:valid-expression-rejected<kinds> | panic<kinds>                                    *)
 EXTENDS TrafficClassOps, TLC, Json
 
@@ -32,6 +34,8 @@ Cls ==
                    ELSE IF got \subseteq want THEN "eval:false-on-true" ELSE "eval:both") \o KindsKey(R.ast))
            ELSE IF R.err2 = 1 THEN Bad("roundtrip:printed-text-rejected" \o KindsKey(R.ast))
            ELSE IF SetOf(R.true2) # want THEN Bad("roundtrip:value-changed" \o KindsKey(R.ast))
+           ELSE IF R.err3 = 1 THEN Bad("config:json-form-rejected" \o KindsKey(R.ast))
+           ELSE IF SetOf(R.true3) # want THEN Bad("config:json-value-changed" \o KindsKey(R.ast))
            ELSE Ok
 
 Step == /\ l <= Len(Trace)
